@@ -241,6 +241,14 @@ func (u *Unit) exec(st *State, fr *Frame, instr ssa.Instruction) bool {
 		id := u.fresh(st, "clo", "Int")
 		st.assume(fmt.Sprintf("(< 0 %s)", id))
 		cv := Val{T: in.Type(), Terms: []Term{id}, Fn: &FnVal{Fn: fn, Bind: bind}}
+		// the closure as a first-class value: which function it is and the cells it captured stay
+		// known when it travels through the heap (a slice of callbacks, a struct field)
+		st.assume(fmt.Sprintf("(= (fnid %s) %d)", id, u.fnID(fn)))
+		for j, b := range bind {
+			if len(b.Terms) == 1 && !strings.HasPrefix(b.Terms[0], "?") && u.eng.leavesOf(b.T)[0].Sort == "Int" {
+				st.assume(fmt.Sprintf("(= (capv %s %d) %s)", id, j, b.Terms[0]))
+			}
+		}
 		fr.regs[in] = cv
 		u.closureCreated(st, fr, cv, in.Pos())
 	case *ssa.MapUpdate:
